@@ -52,9 +52,36 @@ def shift_places(prog, dy):
     return p2
 
 
+def far_merge(rng, nval):
+    """A wire merge (bundle composition or same-typed addition) wired straight to sinks beyond the 9-tile wire span."""
+    p = C06.P(rng)
+    kind = rng.choice(["bundle", "sum"])
+    if kind == "bundle":
+        ms = [p.inp() for _ in range(rng.randint(2, 3))]
+        p.prog.append(["bun", "b", ["B", [["v", m] for m in ms]]])
+        for _ in range(rng.randint(1, 2)):
+            p.enable(p.place("small-lamp"), [rng.choice(["any", "all"]), rng.choice(lang.CMP_OPS), ["v", "b"], ["n", rng.randint(-3, 10)]])
+    else:
+        t = p.types.fresh()
+        ms = []
+        for _ in range(rng.randint(2, 3)):
+            nm = "i%d" % len(ms)
+            p.prog.append(["input", nm, t, rng.randint(-5, 12)])
+            p.edges[nm] = list(range(-5, 13))
+            ms.append(nm)
+        e = ["v", ms[0]]
+        for m in ms[1:]:
+            e = ["b", "+", e, ["v", m]]
+        p.prog.append(["sig", "s", e])
+        for _ in range(rng.randint(1, 2)):
+            p.enable(p.place("small-lamp"), ["c", rng.choice(lang.CMP_OPS), ["v", "s"], ["n", rng.randint(-3, 20)]])
+    return {"prog": p.prog, "edges": p.edges}
+
+
 def component(rng, nval):
     f = rng.choice([C01.s_dag_distinct, C01.s_dag_distinct, C01.s_sel, C01.s_logic_chain, C02.s_arith, C02.s_filter,
-                    C06.s_inline, C06.s_noninline, C06.s_fanout, "mem", "mixed"])
+                    C06.s_inline, C06.s_noninline, C06.s_fanout, C06.s_bundle_cond, C06.s_bundle_cond, far_merge,
+                    "mem", "mixed"])
     if f == "mem":
         prog, edges = C03.build(rng, "basic")
         return prog, edges
@@ -83,9 +110,10 @@ def gen_cases(tier, seed):
         parts = []
         k = 2 if sub.random() < 0.8 else 3
         base_types = None
+        dy = sub.choice([40, 40, 12])   # 12: the routes of the components run side by side
         for j in range(k):
             prog, edges = component(sub, nval)
-            prog = shift_places(prog, 40 * j)
+            prog = shift_places(prog, dy * j)
             if base_types and sub.random() < 0.8:
                 mine = types_of(prog)
                 sub.shuffle(mine)
